@@ -42,7 +42,7 @@ class Oracle:
 
     def profile(self, rec):
         return {"inplace": (True,), "invalid": False, "raising": False, "ctor": False, "deepcopy": False,
-                "sentinels": False, "iffalse": False, "small": True}
+                "sentinels": False, "iffalse": False, "small": True, "foreign_containers": True}
 
     def gen_ops(self, rec, world, P):
         ops = []
